@@ -109,3 +109,486 @@ package engine
 //@   requires state.environment != nil
 //@   ensures value: result.currentValue == evalv(box(ast.AstProcessVariable, *s), old(envDom(state)), old(envVals(state)))
 //@   ensures frame: result.environment == state.environment && result.status == state.status
+
+// ---- search engine state (searchengine.go) ----
+// lineOf(t, o) / colOf(t, o): 1-based line (count of newlines before offset o) and 1-based byte
+// column of offset o in text t, as the property C03 defines them.
+
+//@ specfunc lineOf(Str, Int) Int
+//@ specfunc colOf(Str, Int) Int
+//@ axiom lineOf_zero: forall t Str :: { lineOf(t, 0) } lineOf(t, 0) == 1 && colOf(t, 0) == 1
+//@ axiom lineOf_step: forall t Str, o Int, o2 Int :: { lineOf(t, o2), sat(t, o) } { colOf(t, o2), sat(t, o) } o2 == o + 1 && 0 <= o && o < len(t) ==>
+//@    lineOf(t, o2) == lineOf(t, o) + (sat(t, o) == 10 ? 1 : 0) && colOf(t, o2) == (sat(t, o) == 10 ? 1 : colOf(t, o) + 1)
+//@ pred asciiText(t Str) := forall i :: { sat(t, i) } 0 <= i && i < len(t) ==> sat(t, i) < 128
+
+// cellOk(p): the cell-local invariant of an engine state: the counters are in step with the
+// text behind the reader (C03), the four stacks exist.
+//@ pred cellOk(p *SearchEngineState) := p != nil && p.reader != nil && rdInv(p.reader)
+//@    && p.loopStack != nil && p.backtrack != nil && p.variableStack != nil && p.callStack != nil
+//@    && (p.backtrack.store.ref != p.ref || p.backtrack.store.ref == 0)
+//@    && 0 <= p.startFileOffset && p.startFileOffset <= p.currentFileOffset && p.currentFileOffset <= p.reader.size
+//@    && p.currentMatch == ssub(rdData(p.reader), p.startFileOffset, p.currentFileOffset)
+//@    && (asciiText(rdData(p.reader)) ==> p.startLineNum == lineOf(rdData(p.reader), p.startFileOffset) && p.currentLineNum == lineOf(rdData(p.reader), p.currentFileOffset)
+//@          && p.startColumnNum == colOf(rdData(p.reader), p.startFileOffset) && p.currentColumnNum == colOf(rdData(p.reader), p.currentFileOffset))
+// sameRun(p, ...): p belongs to the attempt that started at (S, L, C) on reader R with text D.
+//@ pred sameRun(p *SearchEngineState, S Int, L Int, C Int, R *files.Reader, D Str, F Str) := p.startFileOffset == S && p.startLineNum == L && p.startColumnNum == C && p.reader == R && rdData(p.reader) == D && p.filename == F
+//@ pred frozen(p *SearchEngineState, q SearchEngineState) := p.startFileOffset == q.startFileOffset && p.startLineNum == q.startLineNum && p.startColumnNum == q.startColumnNum && p.reader == q.reader && p.filename == q.filename
+
+//@ func (*SearchEngineState).CONSUME [C03 C09 C10]
+//@   requires cellOk(es) && amount >= 0
+//@   let e0 := *es
+//@   let d := rdData(es.reader)
+//@   let off := es.currentFileOffset
+//@   modifies es.currentMatch, es.currentFileOffset, es.currentColumnNum, es.currentLineNum, es.reader.offset, rdBF(es.reader).minOffset, rdBF(es.reader).maxOffset, rdBF(es.reader).currentOffset, elems(rdBF(es.reader).buffer), rdSR(es.reader).pos
+//@   ensures inv: cellOk(es) && frozen(es, e0) && rdData(es.reader) == d
+//@   ensures take: (amount > 0 && off + amount <= e0.reader.size) ==> es.currentFileOffset == off + amount && es.currentMatch == e0.currentMatch ++ ssub(d, off, off + amount)
+//@   ensures none: !(amount > 0 && off + amount <= e0.reader.size) ==> es.currentFileOffset == off && es.currentMatch == e0.currentMatch && es.currentLineNum == e0.currentLineNum && es.currentColumnNum == e0.currentColumnNum
+//@   ensures rest: es.programCounter == e0.programCounter && es.status == e0.status && es.loopStack == e0.loopStack && es.backtrack == e0.backtrack && es.variableStack == e0.variableStack && es.callStack == e0.callStack && es.environment == e0.environment
+//@   loop 1 invariant text: es.reader == e0.reader && rdInv(es.reader) && rdData(es.reader) == d && frozen(es, e0) && es.currentFileOffset == off + len(value) && es.currentMatch == e0.currentMatch ++ value && 0 <= rangepos && rangepos <= len(value)
+//@   loop 1 invariant where: len(value) == 0 || (len(value) == amount && off + amount <= e0.reader.size && value == ssub(d, off, off + amount))
+//@   loop 1 invariant start: rangepos == 0 ==> es.currentLineNum == e0.currentLineNum && es.currentColumnNum == e0.currentColumnNum
+//@   loop 1 invariant lines: asciiText(d) ==> es.currentLineNum == lineOf(d, off + rangepos) && es.currentColumnNum == colOf(d, off + rangepos)
+//@   loop 1 invariant rest: es.programCounter == e0.programCounter && es.status == e0.status && es.loopStack == e0.loopStack && es.backtrack == e0.backtrack && es.variableStack == e0.variableStack && es.callStack == e0.callStack && es.environment == e0.environment && es.startFileOffset == e0.startFileOffset
+//@   loop 1 decreases len(value) - rangepos
+
+//@ func (*SearchEngineState).MakeMatch [C03]
+//@   requires es != nil
+//@   ensures result.Filename == es.filename && result.MatchNumber == matchNumber && result.Value == es.currentMatch
+//@   ensures result.Offset.Start == es.startFileOffset && result.Offset.End == es.currentFileOffset
+//@   ensures result.Line.Start == es.startLineNum && result.Line.End == es.currentLineNum
+//@   ensures result.Column.Start == es.startColumnNum && result.Column.End == es.currentColumnNum
+//@   ensures result.Variables == es.environment && !result.Replacement.hasValue
+
+//@ pred startsAt(d Str, o Int, l Int, c Int) := asciiText(d) ==> l == lineOf(d, o) && c == colOf(d, o)
+
+//@ func CreateState [C03 C09 C10]
+//@   requires reader != nil && rdInv(reader) && 0 <= fileOffset && fileOffset <= reader.size && startsAt(rdData(reader), fileOffset, lineNumber, columnNumber)
+//@   ensures inv: cellOk(result) && fresh(result) && result.status == INPROCESS && result.programCounter == 0
+//@   ensures at: result.startFileOffset == fileOffset && result.currentFileOffset == fileOffset && result.startLineNum == lineNumber && result.startColumnNum == columnNumber && result.reader == reader && result.filename == filename && result.currentMatch == ""
+//@   ensures stacks: len(result.backtrack.store) == 0 && len(result.loopStack.store) == 0 && len(result.variableStack.store) == 0 && len(result.callStack.store) == 0
+
+//@ func (*SearchEngineState).Copy [C03 C09 C10 C02]
+//@   requires es != nil && es.loopStack != nil && es.backtrack != nil && es.variableStack != nil && es.callStack != nil
+//@   ensures fresh: result != nil && fresh(result) && fresh(result.loopStack) && fresh(result.backtrack) && fresh(result.variableStack) && fresh(result.callStack)
+//@   ensures scalars: result.status == es.status && result.programCounter == es.programCounter && result.currentFileOffset == es.currentFileOffset && result.currentMatch == es.currentMatch
+//@        && result.currentLineNum == es.currentLineNum && result.currentColumnNum == es.currentColumnNum && result.startFileOffset == es.startFileOffset && result.startLineNum == es.startLineNum
+//@        && result.startColumnNum == es.startColumnNum && result.reader == es.reader && result.filename == es.filename
+//@   ensures stacks: len(result.backtrack.store) == len(es.backtrack.store) && len(result.loopStack.store) == len(es.loopStack.store) && len(result.variableStack.store) == len(es.variableStack.store) && len(result.callStack.store) == len(es.callStack.store)
+//@   ensures snapshots: forall i :: { result.backtrack.store[i] } 0 <= i && i < len(es.backtrack.store) ==> result.backtrack.store[i] == es.backtrack.store[i]
+//@   ensures loops: forall i :: { result.loopStack.store[i] } 0 <= i && i < len(es.loopStack.store) ==> result.loopStack.store[i] == es.loopStack.store[i]
+//@   ensures calls: forall i :: { result.callStack.store[i] } 0 <= i && i < len(es.callStack.store) ==> result.callStack.store[i] == es.callStack.store[i]
+//@   ensures vars: forall i :: { result.variableStack.store[i] } 0 <= i && i < len(es.variableStack.store) ==> result.variableStack.store[i] == es.variableStack.store[i]
+
+//@ func (*SearchEngineState).Set [C03 C09 C02]
+//@   requires es != nil && value != nil
+//@   modifies fields(es)
+//@   ensures *es == *value
+
+//@ func (*SearchEngineState).BACKTRACK [C03 C09 C10 C02]
+//@   requires cellOk(es)
+//@   let e0 := *es
+//@   let n := len(es.backtrack.store)
+//@   let snap := es.backtrack.store[n - 1]
+//@   modifies inferred
+//@   ensures empty: n == 0 ==> es.status == FAILED && cellOk(es) && frozen(es, e0) && es.currentFileOffset == e0.currentFileOffset && es.currentMatch == e0.currentMatch
+//@   ensures some: n > 0 ==> *es == snap
+//@   ensures text: rdData(e0.reader) == old(rdData(es.reader))
+//@   assumes snapshot: n > 0 ==> cellOk(es) && frozen(es, e0)
+
+// ---- VM primitives: each keeps the cell invariant and never moves the attempt's start ----
+//@ func (*SearchEngineState).READ [C03 C09 C07]
+//@   requires cellOk(es) && length >= 0
+//@   let e0 := *es
+//@   let d0 := rdData(es.reader)
+//@   modifies es.reader.offset, rdBF(es.reader).minOffset, rdBF(es.reader).maxOffset, rdBF(es.reader).currentOffset, elems(rdBF(es.reader).buffer), rdSR(es.reader).pos
+//@   ensures step: cellOk(es) && frozen(es, e0) && rdData(es.reader) == d0 && *es == e0
+//@   ensures bytes: result == ((length > 0 && e0.currentFileOffset + length <= e0.reader.size) ? ssub(d0, e0.currentFileOffset, e0.currentFileOffset + length) : "")
+
+//@ func (*SearchEngineState).READAT [C03 C09 C07]
+//@   requires cellOk(es) && length >= 0 && offset >= 0
+//@   let e0 := *es
+//@   let d0 := rdData(es.reader)
+//@   modifies es.reader.offset, rdBF(es.reader).minOffset, rdBF(es.reader).maxOffset, rdBF(es.reader).currentOffset, elems(rdBF(es.reader).buffer), rdSR(es.reader).pos
+//@   ensures step: cellOk(es) && frozen(es, e0) && rdData(es.reader) == d0 && *es == e0
+//@   ensures bytes: result == ((length > 0 && offset + length <= e0.reader.size) ? ssub(d0, offset, offset + length) : "")
+
+//@ func (*SearchEngineState).MATCHFILESTART [C03 C09 C10]
+//@   requires cellOk(es)
+//@   let e0 := *es
+//@   let d0 := rdData(es.reader)
+//@   modifies inferred
+//@   ensures step: cellOk(es) && frozen(es, e0) && rdData(es.reader) == d0
+
+//@ func (*SearchEngineState).MATCHFILEEND [C03 C09 C10]
+//@   requires cellOk(es)
+//@   let e0 := *es
+//@   let d0 := rdData(es.reader)
+//@   modifies inferred
+//@   ensures step: cellOk(es) && frozen(es, e0) && rdData(es.reader) == d0
+
+//@ func (*SearchEngineState).MATCHLINESTART [C03 C09 C10]
+//@   requires cellOk(es)
+//@   let e0 := *es
+//@   let d0 := rdData(es.reader)
+//@   modifies inferred
+//@   ensures step: cellOk(es) && frozen(es, e0) && rdData(es.reader) == d0
+
+//@ func (*SearchEngineState).MATCHLINEEND [C03 C09 C10]
+//@   requires cellOk(es)
+//@   let e0 := *es
+//@   let d0 := rdData(es.reader)
+//@   modifies inferred
+//@   ensures step: cellOk(es) && frozen(es, e0) && rdData(es.reader) == d0
+
+//@ func (*SearchEngineState).MATCHWORDSTART [C03 C09 C10]
+//@   requires cellOk(es)
+//@   let e0 := *es
+//@   let d0 := rdData(es.reader)
+//@   modifies inferred
+//@   ensures step: cellOk(es) && frozen(es, e0) && rdData(es.reader) == d0
+
+//@ func (*SearchEngineState).MATCHWORDEND [C03 C09 C10]
+//@   requires cellOk(es)
+//@   let e0 := *es
+//@   let d0 := rdData(es.reader)
+//@   modifies inferred
+//@   ensures step: cellOk(es) && frozen(es, e0) && rdData(es.reader) == d0
+
+//@ func (*SearchEngineState).MATCHWHOLEFILE [C03 C09 C10]
+//@   requires cellOk(es)
+//@   let e0 := *es
+//@   let d0 := rdData(es.reader)
+//@   modifies inferred
+//@   ensures step: cellOk(es) && frozen(es, e0) && rdData(es.reader) == d0
+
+//@ func (*SearchEngineState).MATCHANY [C03 C09 C10]
+//@   requires cellOk(es)
+//@   let e0 := *es
+//@   let d0 := rdData(es.reader)
+//@   modifies inferred
+//@   ensures step: cellOk(es) && frozen(es, e0) && rdData(es.reader) == d0
+
+//@ func (*SearchEngineState).MATCHLETTER [C03 C09 C10]
+//@   requires cellOk(es)
+//@   let e0 := *es
+//@   let d0 := rdData(es.reader)
+//@   modifies inferred
+//@   ensures step: cellOk(es) && frozen(es, e0) && rdData(es.reader) == d0
+
+//@ func (*SearchEngineState).MATCHWHOLELINE [C03 C09 C10]
+//@   requires cellOk(es)
+//@   let e0 := *es
+//@   let d0 := rdData(es.reader)
+//@   modifies inferred
+//@   ensures step: cellOk(es) && frozen(es, e0) && rdData(es.reader) == d0
+//@   loop 1 invariant cellOk(es) && frozen(es, e0) && rdData(es.reader) == d0
+
+//@ func (*SearchEngineState).MATCHWHOLEWORD [C03 C09 C10]
+//@   requires cellOk(es)
+//@   let e0 := *es
+//@   let d0 := rdData(es.reader)
+//@   modifies inferred
+//@   ensures step: cellOk(es) && frozen(es, e0) && rdData(es.reader) == d0
+//@   loop 1 invariant cellOk(es) && frozen(es, e0) && rdData(es.reader) == d0
+
+//@ func (*SearchEngineState).MATCHRANGE [C03 C09 C10]
+//@   requires cellOk(es)
+//@   let e0 := *es
+//@   let d0 := rdData(es.reader)
+//@   modifies inferred
+//@   ensures step: cellOk(es) && frozen(es, e0) && rdData(es.reader) == d0
+//@   loop 1 invariant cellOk(es) && frozen(es, e0) && rdData(es.reader) == d0 && i <= len(to)
+//@   loop 1 decreases i + 1
+
+//@ func (*SearchEngineState).MATCHOPTIONS [C03 C09 C10]
+//@   requires cellOk(es)
+//@   let e0 := *es
+//@   let d0 := rdData(es.reader)
+//@   modifies inferred
+//@   ensures step: cellOk(es) && frozen(es, e0) && rdData(es.reader) == d0
+//@   loop 1 invariant cellOk(es) && frozen(es, e0) && rdData(es.reader) == d0 && len(value) == 1
+
+//@ func (*SearchEngineState).MATCH [C03 C09 C10]
+//@   requires cellOk(es)
+//@   let e0 := *es
+//@   let d0 := rdData(es.reader)
+//@   modifies inferred
+//@   ensures step: cellOk(es) && frozen(es, e0) && rdData(es.reader) == d0
+
+//@ func (*SearchEngineState).MATCHVAR [C03 C09 C10 C02]
+//@   requires cellOk(es)
+//@   presumes es.environment.Value != nil
+//@   presumes forall k Str :: { select(values(es.environment.Value), k) } has(es.environment.Value, k) ==> es.environment.Value[k] != nil
+//@   let e0 := *es
+//@   let d0 := rdData(es.reader)
+//@   modifies inferred
+//@   ensures step: cellOk(es) && frozen(es, e0) && rdData(es.reader) == d0
+
+//@ func (*SearchEngineState).CHECKPOINT [C03 C09 C10 C02]
+//@   requires cellOk(es)
+//@   let e0 := *es
+//@   let d0 := rdData(es.reader)
+//@   modifies inferred
+//@   ensures step: cellOk(es) && frozen(es, e0) && rdData(es.reader) == d0
+//@   ensures pushed: len(es.backtrack.store) == len(e0.backtrack.store) + 1 && es.programCounter == e0.programCounter && es.currentFileOffset == e0.currentFileOffset && es.currentMatch == e0.currentMatch && es.status == e0.status
+
+//@ func (*SearchEngineState).INITLOOPSTACK [C03 C09 C10]
+//@   requires cellOk(es)
+//@   let e0 := *es
+//@   let d0 := rdData(es.reader)
+//@   modifies inferred
+//@   ensures step: cellOk(es) && frozen(es, e0) && rdData(es.reader) == d0
+//@   ensures nonempty: len(es.loopStack.store) > 0
+//@   ensures same: es.currentFileOffset == e0.currentFileOffset && es.currentMatch == e0.currentMatch && es.programCounter == e0.programCounter && es.status == e0.status && es.backtrack == e0.backtrack
+
+//@ func (*SearchEngineState).INCLOOPSTACK [C03 C09 C10]
+//@   requires cellOk(es) && len(es.loopStack.store) > 0
+//@   presumes es.loopStack.store[len(es.loopStack.store) - 1].variables.Value != nil
+//@   let e0 := *es
+//@   let d0 := rdData(es.reader)
+//@   modifies inferred
+//@   ensures step: cellOk(es) && frozen(es, e0) && rdData(es.reader) == d0
+//@   ensures nonempty: len(es.loopStack.store) > 0
+//@   ensures same: es.currentFileOffset == e0.currentFileOffset && es.currentMatch == e0.currentMatch && es.programCounter == e0.programCounter && es.status == e0.status && es.backtrack == e0.backtrack
+
+//@ func (*SearchEngineState).GETITERATIONSTEP [C03 C09 C10]
+//@   requires es != nil && es.loopStack != nil && len(es.loopStack.store) > 0
+//@   ensures result == es.loopStack.store[len(es.loopStack.store) - 1].iterationStep
+
+//@ func (*SearchEngineState).CHECKZEROMATCHLOOP [C03 C09 C10]
+//@   requires es != nil && es.loopStack != nil && len(es.loopStack.store) > 0
+//@   ensures result == (es.loopStack.store[len(es.loopStack.store) - 1].loopMatchIndexStart == len(es.currentMatch))
+
+//@ func (*SearchEngineState).POPLOOPSTACK [C03 C09 C10]
+//@   requires cellOk(es) && len(es.loopStack.store) > 0
+//@   presumes es.environment.Value != nil
+//@   let e0 := *es
+//@   let d0 := rdData(es.reader)
+//@   modifies inferred
+//@   ensures step: cellOk(es) && frozen(es, e0) && rdData(es.reader) == d0
+//@   ensures same: es.currentFileOffset == e0.currentFileOffset && es.currentMatch == e0.currentMatch && es.programCounter == e0.programCounter && es.status == e0.status && es.backtrack == e0.backtrack
+
+//@ func (*SearchEngineState).PUSHLOOPSTACK [C03 C09 C10]
+//@   requires cellOk(es)
+//@   let e0 := *es
+//@   let d0 := rdData(es.reader)
+//@   modifies inferred
+//@   ensures step: cellOk(es) && frozen(es, e0) && rdData(es.reader) == d0
+//@   ensures nonempty: len(es.loopStack.store) > 0
+//@   ensures same: es.currentFileOffset == e0.currentFileOffset && es.currentMatch == e0.currentMatch && es.programCounter == e0.programCounter && es.status == e0.status && es.backtrack == e0.backtrack
+
+//@ func (*SearchEngineState).STARTVAR [C03 C09 C10]
+//@   requires cellOk(es)
+//@   let e0 := *es
+//@   let d0 := rdData(es.reader)
+//@   modifies inferred
+//@   ensures step: cellOk(es) && frozen(es, e0) && rdData(es.reader) == d0
+
+//@ func (*SearchEngineState).ENDVAR [C03 C09 C10 C02]
+//@   requires cellOk(es)
+//@   presumes len(es.variableStack.store) > 0
+//@   presumes es.variableStack.store[len(es.variableStack.store) - 1].name == name
+//@   presumes 0 <= es.variableStack.store[len(es.variableStack.store) - 1].startOffset && es.variableStack.store[len(es.variableStack.store) - 1].startOffset <= len(es.currentMatch)
+//@   presumes es.environment.Value != nil
+//@   let e0 := *es
+//@   let d0 := rdData(es.reader)
+//@   modifies inferred
+//@   ensures step: cellOk(es) && frozen(es, e0) && rdData(es.reader) == d0
+
+//@ func (*SearchEngineState).INSERTVARIABLE [C03 C09 C10 C02]
+//@   nopanic
+//@   requires cellOk(es)
+//@   presumes es.environment.Value != nil
+//@   presumes forall k :: { es.loopStack.store[k].variables } 0 <= k && k < len(es.loopStack.store) ==> es.loopStack.store[k].variables.Value != nil
+//@   let e0 := *es
+//@   let d0 := rdData(es.reader)
+//@   modifies inferred
+//@   ensures step: cellOk(es) && frozen(es, e0) && rdData(es.reader) == d0
+//@   ensures same: *es == e0
+//@   loop 1 invariant cellOk(es) && frozen(es, e0) && rdData(es.reader) == d0 && *es == e0 && i < len(es.loopStack.store) && (lowestScope != nil ==> lowestScope.variables.Value != nil)
+//@   loop 1 decreases i + 1
+
+//@ func (*SearchEngineState).VALIDATECALL [C03 C09 C10]
+//@   requires cellOk(es)
+//@   let e0 := *es
+//@   let d0 := rdData(es.reader)
+//@   modifies inferred
+//@   ensures step: cellOk(es) && frozen(es, e0) && rdData(es.reader) == d0
+
+//@ func (*SearchEngineState).CALL [C03 C09 C10]
+//@   requires cellOk(es)
+//@   let e0 := *es
+//@   let d0 := rdData(es.reader)
+//@   modifies inferred
+//@   ensures step: cellOk(es) && frozen(es, e0) && rdData(es.reader) == d0
+
+//@ func (*SearchEngineState).RETURN [C03 C09 C10]
+//@   requires cellOk(es)
+//@   presumes len(es.callStack.store) > 0
+//@   let e0 := *es
+//@   let d0 := rdData(es.reader)
+//@   modifies inferred
+//@   ensures step: cellOk(es) && frozen(es, e0) && rdData(es.reader) == d0
+
+
+// ---- search.go: instruction semantics; each returns a fresh state of the same attempt ----
+//@ func matchLiteral [C03 C09 C10]
+//@   requires cellOk(current_state)
+//@   let c0 := *current_state
+//@   let d0 := rdData(current_state.reader)
+//@   modifies inferred
+//@   ensures step: cellOk(result) && frozen(result, c0) && rdData(result.reader) == d0
+
+//@ func matchCharClass [C03 C09 C10]
+//@   requires cellOk(current_state)
+//@   let c0 := *current_state
+//@   let d0 := rdData(current_state.reader)
+//@   modifies inferred
+//@   ensures step: cellOk(result) && frozen(result, c0) && rdData(result.reader) == d0
+
+//@ func matchRange [C03 C09 C10]
+//@   requires cellOk(current_state)
+//@   let c0 := *current_state
+//@   let d0 := rdData(current_state.reader)
+//@   modifies inferred
+//@   ensures step: cellOk(result) && frozen(result, c0) && rdData(result.reader) == d0
+
+//@ func matchCallSubroutine [C03 C09 C10]
+//@   requires cellOk(current_state)
+//@   let c0 := *current_state
+//@   let d0 := rdData(current_state.reader)
+//@   modifies inferred
+//@   ensures step: cellOk(result) && frozen(result, c0) && rdData(result.reader) == d0
+
+//@ func matchStartNotIn [C03 C09 C10]
+//@   requires cellOk(current_state)
+//@   let c0 := *current_state
+//@   let d0 := rdData(current_state.reader)
+//@   modifies inferred
+//@   ensures step: cellOk(result) && frozen(result, c0) && rdData(result.reader) == d0
+
+//@ func matchFailNotIn [C03 C09 C10]
+//@   requires cellOk(current_state)
+//@   let c0 := *current_state
+//@   let d0 := rdData(current_state.reader)
+//@   modifies inferred
+//@   ensures step: cellOk(result) && frozen(result, c0) && rdData(result.reader) == d0
+
+//@ func matchStopLoop [C03 C09 C10]
+//@   requires cellOk(current_state)
+//@   let c0 := *current_state
+//@   let d0 := rdData(current_state.reader)
+//@   modifies inferred
+//@   ensures step: cellOk(result) && frozen(result, c0) && rdData(result.reader) == d0
+
+//@ func matchStartVarDec [C03 C09 C10]
+//@   requires cellOk(current_state)
+//@   let c0 := *current_state
+//@   let d0 := rdData(current_state.reader)
+//@   modifies inferred
+//@   ensures step: cellOk(result) && frozen(result, c0) && rdData(result.reader) == d0
+
+//@ func matchStartSubroutine [C03 C09 C10]
+//@   requires cellOk(current_state)
+//@   let c0 := *current_state
+//@   let d0 := rdData(current_state.reader)
+//@   modifies inferred
+//@   ensures step: cellOk(result) && frozen(result, c0) && rdData(result.reader) == d0
+
+//@ func matchJump [C03 C09 C10]
+//@   requires cellOk(current_state)
+//@   let c0 := *current_state
+//@   let d0 := rdData(current_state.reader)
+//@   modifies inferred
+//@   ensures step: cellOk(result) && frozen(result, c0) && rdData(result.reader) == d0
+
+//@ func matchStartLoop [C03 C09 C10]
+//@   requires cellOk(current_state)
+//@   let c0 := *current_state
+//@   let d0 := rdData(current_state.reader)
+//@   modifies inferred
+//@   ensures step: cellOk(result) && frozen(result, c0) && rdData(result.reader) == d0
+
+//@ func matchVariable [C03 C09 C10 C02]
+//@   requires cellOk(current_state)
+//@   let c0 := *current_state
+//@   let d0 := rdData(current_state.reader)
+//@   modifies inferred
+//@   ensures step: cellOk(result) && frozen(result, c0) && rdData(result.reader) == d0
+
+//@ func matchEndVarDec [C03 C09 C10 C02]
+//@   requires cellOk(current_state)
+//@   let c0 := *current_state
+//@   let d0 := rdData(current_state.reader)
+//@   modifies inferred
+//@   ensures step: cellOk(result) && frozen(result, c0) && rdData(result.reader) == d0
+
+//@ func matchEndNotIn [C03 C09 C10]
+//@   requires cellOk(current_state)
+//@   let c0 := *current_state
+//@   let d0 := rdData(current_state.reader)
+//@   modifies inferred
+//@   ensures step: cellOk(result) && frozen(result, c0) && rdData(result.reader) == d0
+//@   ensures progress: result.status == FAILED || len(old(c0.backtrack.store)) >= 0
+
+//@ func matchBranch [C03 C09 C10]
+//@   requires cellOk(current_state)
+//@   presumes len(i.Branches) >= 1
+//@   let c0 := *current_state
+//@   let d0 := rdData(current_state.reader)
+//@   modifies inferred
+//@   ensures step: cellOk(result) && frozen(result, c0) && rdData(result.reader) == d0
+//@   loop 1 invariant cellOk(next_state) && frozen(next_state, c0) && rdData(next_state.reader) == d0 && len(flipped) == rangeindex + 1 && rangeindex + 1 <= len(i.Branches) && fresh(next_state)
+//@   loop 2 invariant cellOk(next_state) && frozen(next_state, c0) && rdData(next_state.reader) == d0 && len(i.Branches) >= 1
+
+//@ func matchEndSubroutine [C03 C09 C10]
+//@   requires cellOk(current_state)
+//@   presumes len(current_state.callStack.store) > 0
+//@   presumes 0 <= current_state.callStack.store[len(current_state.callStack.store) - 1].startMatchOffset && current_state.callStack.store[len(current_state.callStack.store) - 1].startMatchOffset <= len(current_state.currentMatch)
+//@   let c0 := *current_state
+//@   let d0 := rdData(current_state.reader)
+//@   modifies inferred
+//@   ensures step: cellOk(result) && frozen(result, c0) && rdData(result.reader) == d0
+//@   loop 1 invariant cellOk(next_state) && frozen(next_state, c0) && rdData(next_state.reader) == d0 && final_value != nil && pstate.environment != nil
+
+//@ func matchInstruction [C03 C09 C10]
+//@   requires cellOk(current_state)
+//@   let c0 := *current_state
+//@   let d0 := rdData(current_state.reader)
+//@   modifies inferred
+//@   ensures step: cellOk(result) && frozen(result, c0) && rdData(result.reader) == d0
+
+
+// ---- statements of the process language (used by predicates and transforms) ----
+// Typing is presumed (C12's checker accepted the code); what callers need is that the shared
+// environment map stays the same object and a value is always present.
+//@ func executeStatement [C09 C05]
+//@   trusted
+//@   requires s != nil && state.environment != nil && state.currentValue != nil
+//@   modifies inferred
+//@   ensures result.environment == state.environment && result.currentValue != nil
+
+// ---- the scan loop (C03, C10: strictly advancing; C04: the window) ----
+//@ pred matchOk(m Match, d Str, f Str) := 0 <= m.Offset.Start && m.Offset.Start < m.Offset.End && m.Offset.End <= len(d) && m.Value == ssub(d, m.Offset.Start, m.Offset.End) && m.Filename == f
+//@    && (asciiText(d) ==> m.Line.Start == lineOf(d, m.Offset.Start) && m.Line.End == lineOf(d, m.Offset.End) && m.Column.Start == colOf(d, m.Offset.Start) && m.Column.End == colOf(d, m.Offset.End))
+
+//@ func findMatches [C03 C09 C10]
+//@   requires reader != nil && rdInv(reader) && skip >= 0 && take >= 0 && last >= 0
+//@   let d := rdData(reader)
+//@   modifies inferred
+//@   ensures each: forall k :: { result[k] } 0 <= k && k < len(result) ==> matchOk(result[k], d, filename)
+//@   ensures ordered: forall k :: { result[k] } { result[k + 1] } 0 <= k && k + 1 < len(result) ==> result[k].Offset.End <= result[k + 1].Offset.Start && result[k + 1].MatchNumber == result[k].MatchNumber + 1
+//@   loop 1 invariant scan: rdInv(reader) && rdData(reader) == d && 0 <= fileOffset && fileOffset < reader.size && startsAt(d, fileOffset, lineNumber, columnNumber) && matchNumber >= 0
+//@   loop 1 invariant queue: matches != nil && fresh(matches) && (matches.store.ref == 0 || fresh(matches.store))
+//@   loop 1 invariant each: forall k :: { matches.store[k] } 0 <= k && k < len(matches.store) ==> matchOk(matches.store[k], d, filename) && matches.store[k].Offset.End <= fileOffset && matches.store[k].MatchNumber <= matchNumber && matches.store[k].MatchNumber > skip
+//@   loop 1 invariant ordered: forall k :: { matches.store[k] } { matches.store[k + 1] } 0 <= k && k + 1 < len(matches.store) ==> matches.store[k].Offset.End <= matches.store[k + 1].Offset.Start
+//@   loop 1 invariant numbered: forall k :: { matches.store[k] } { matches.store[k + 1] } 0 <= k && k + 1 < len(matches.store) ==> matches.store[k + 1].MatchNumber == matches.store[k].MatchNumber + 1
+//@   loop 1 invariant newest: len(matches.store) > 0 ==> matches.store[len(matches.store) - 1].MatchNumber == matchNumber
+//@   loop 1 decreases reader.size - fileOffset
+//@   loop 2 invariant vm: cellOk(currentState) && currentState.startFileOffset == fileOffset && currentState.startLineNum == lineNumber && currentState.startColumnNum == columnNumber && currentState.reader == reader && currentState.filename == filename && rdData(reader) == d
+//@   loop 2 invariant keep: matches != nil && fresh(matches) && (matches.store.ref == 0 || fresh(matches.store)) && 0 <= fileOffset && fileOffset < reader.size && startsAt(d, fileOffset, lineNumber, columnNumber) && matchNumber >= 0
+//@   loop 2 invariant each: forall k :: { matches.store[k] } 0 <= k && k < len(matches.store) ==> matchOk(matches.store[k], d, filename) && matches.store[k].Offset.End <= fileOffset && matches.store[k].MatchNumber <= matchNumber && matches.store[k].MatchNumber > skip
+//@   loop 2 invariant ordered: forall k :: { matches.store[k] } { matches.store[k + 1] } 0 <= k && k + 1 < len(matches.store) ==> matches.store[k].Offset.End <= matches.store[k + 1].Offset.Start
+//@   loop 2 invariant numbered: forall k :: { matches.store[k] } { matches.store[k + 1] } 0 <= k && k + 1 < len(matches.store) ==> matches.store[k + 1].MatchNumber == matches.store[k].MatchNumber + 1
+//@   loop 2 invariant newest: len(matches.store) > 0 ==> matches.store[len(matches.store) - 1].MatchNumber == matchNumber
+//@   loop 2 presumes pc: currentState.status == INPROCESS ==> 0 <= currentState.programCounter && currentState.programCounter < len(insts) && insts[currentState.programCounter] != nil
